@@ -243,6 +243,24 @@ def print_assumptions(pid: str) -> dict[str, str]:
     return res
 
 
+def coqchk(pid: str) -> dict:
+    """independent re-check of the compiled property file and everything it depends on (thorough tier)"""
+    p = subprocess.run(["timeout", "1800", "coqchk", "-silent", "-o", "-Q", str(COQ), LOGICAL, f"{LOGICAL}.props.{pid}"],
+                       cwd=COQ, capture_output=True, text=True)
+    out = p.stdout + p.stderr
+    m = re.search(r"\* Axioms:(.*?)\* Constants/Inductives relying on type-in-type:(.*?)\* Constants/Inductives relying on unsafe"
+                  r"(.*?)\* Inductives whose positivity is assumed:(.*)", out, flags=re.S)
+    res = {"exit": p.returncode}
+    if m:
+        res["axioms"] = " ".join(m.group(1).split())
+        res["type_in_type"] = " ".join(m.group(2).split())
+        res["unsafe_fixpoints"] = " ".join(m.group(3).split()).lstrip("(co)fixpoints: ")
+        res["assumed_positivity"] = " ".join(m.group(4).split())
+    else:
+        res["raw"] = out[-500:]
+    return res
+
+
 # --------------------------------------------------------------------------------------
 # correspondence by cases.v + vm_compute
 # --------------------------------------------------------------------------------------
